@@ -233,9 +233,20 @@ pub static OPS: &[OpDef] = &[
         }
         // the same triangles with every 20th one given twice (an edge then occurs three or four times: outside
         // the documented precondition, but whatever comes back - Ok or Err - must come back every time)
-        let mut dup = tris.clone();
-        for k in (0..tris.len()).step_by(20) {
-            dup.push(tris[k]);
+        // (each copy sits at a pseudo-random LATER position, as when two meshes are concatenated or interleaved)
+        let n = tris.len();
+        let mut after: Vec<Vec<usize>> = vec![vec![]; n + 1];
+        let mut state = 0x9E37_79B9u64;
+        for k in (0..n.saturating_sub(1)).step_by(20) {
+            state = state.wrapping_mul(6364136223846793005).wrapping_add(1442695040888963407);
+            after[k + 1 + (state >> 33) as usize % (n - k - 1)].push(k);
+        }
+        let mut dup = Vec::with_capacity(n + n / 20 + 1);
+        for (k, t) in tris.iter().enumerate() {
+            dup.push(*t);
+            for &src in &after[k] {
+                dup.push(tris[src]);
+            }
         }
         match dup.stitch_triangulation() {
             Ok(mp) => {
